@@ -169,28 +169,33 @@ Definition in_scope (fin : op) (before : observation) : bool :=
   | _ => true
   end.
 
-Definition check_spec (c : case) : bool :=
+(* the clauses with the loadability test `ld` as a parameter: check_spec uses the real one; `fun _ => true` leaves
+   everything BUT "every listed identifier loads" (archive present, (b) old-or-new, (c) nothing before the first write,
+   a rejected operation changes nothing) - used by finding_of below *)
+Definition spec_with (ld : observation -> bool) (c : case) : bool :=
   match c with
   | CCrash => false
   | CStore b hist fin before nofault after crashes post after_post kills =>
       if in_scope fin before then
-        let ok (o : observation) := negb (o_missing o) && all_load o && old_or_new fin before o in
+        let ok (o : observation) := negb (o_missing o) && ld o && old_or_new fin before o in
         let ok_crash (x : crash_obs) :=
           ok (seen x)
           && (negb (writes_before x =? 0) || vis_eqb (vis_of_obs (seen x)) (vis_of_obs before))
           (* a later operation (same PulseStorage after a raise, a new process after a kill) keeps the storage
              usable and loadable *)
-          && (match post with Some _ => negb (o_missing (seen_post x)) && all_load (seen_post x) | None => true end) in
+          && (match post with Some _ => negb (o_missing (seen_post x)) && ld (seen_post x) | None => true end) in
         ok after
         && forallb ok_crash crashes
         && forallb (forallb ok_crash) kills
-        && (match post with Some _ => negb (all_load after) || all_load after_post | None => true end)
+        && (match post with Some _ => negb (all_load after) || ld after_post | None => true end)
         && (match nofault with
             | OutErr _ => vis_eqb (vis_of_obs after) (vis_of_obs before)
             | OutOk => true
             end)
       else true
   end.
+
+Definition check_spec (c : case) : bool := spec_with all_load c.
 
 (* ---- which known finding explains a case the specification rejects (used by `classify`, exact) ----
    A finding is "the behaviour of the unchanged code, as the model predicts it, on inputs outside a guard".  So a
@@ -241,5 +246,14 @@ Definition finding_of (c : case) : N :=
          identifier names two objects: what is left outside the exact guard is overwrite-creates-cycle
          (C11_repaired_crash_safe: the cycle guard alone implies the exact guard) *)
       if h3 && tx_guard_op b d0 c0 fin && negb post_tx then 0
+      (* round 5: the finding explains ONLY "a listed identifier does not load because of a reference CYCLE":
+         clauses (b), (c), "archive present", "a rejected operation changes nothing" hold without any guard
+         (C11_repaired_crash_safe_exact), and the buffer of the repaired encoder is ordered children before parents for
+         every template (C11_repaired_children_before_parents), so no prefix state has a dangling reference or an
+         incomplete document: a case that fails one of those, or whose unloadable state is not closed, is NOT it *)
+      else if negb (spec_with (fun _ => true) c) then 0
+      else if negb (forallb (fun o => all_load o || (negb (o_missing o) && closedb (store_of o)))
+                            (after :: after_post :: map seen crashes ++ map seen_post crashes
+                             ++ flat_map (fun seq => map seen seq ++ map seen_post seq) kills)) then 0
       else 2
   end.
